@@ -38,12 +38,59 @@ def _collect(trace, viol, origin):
     return out
 
 def _sample_events(trace, n=3):
-    out = []
+    """A few recorded events of different kinds (a loop with visits, a destroy hit, a clone, a fault)."""
+    out, kinds = [], set()
     with open(trace) as f:
         for i, line in enumerate(f):
-            if i in (2, 9, 30, 77) and len(out) < n:
+            if i < 3:
+                continue
+            m = re.match(r'\{"op":"([a-z_]+)"', line)
+            if not m or m.group(1) in ("decl", "reset", "init", "noop"):
+                continue
+            k = m.group(1)
+            if k == "loop" and '"visits":[]' in line:
+                continue
+            if k == "destroy" and '"out":["n"]' in line:
+                k = "destroy-miss"
+            if '"out":["p"]' in line:
+                k = k + "-panic"
+            if k not in kinds and len(out) < n + 3:
+                kinds.add(k)
                 out.append(_event_brief(line))
-    return out
+    pref = [e for e in out if e.get("op") in ("loop", "clone")] + [e for e in out if e.get("op") not in ("loop", "clone")]
+    return pref[:n]
+
+def _outcome_stats(trace):
+    """Measured non-trivial cases in a trace: outcomes per operation, loops with mixed decisions, faults."""
+    st = {"destroy_hit": 0, "destroy_miss": 0, "panic_outcomes": 0, "within_err": 0, "loops_destroy_then_keep": 0, "loops_with_break": 0,
+          "faults_injected": 0, "clones_ok": 0, "worlds_max": 0, "finds_some": 0, "finds_none": 0}
+    with open(trace) as f:
+        for line in f:
+            m = re.match(r'\{"op":"([a-z_]+)"', line)
+            if not m:
+                continue
+            op = m.group(1)
+            if '"out":["p"]' in line: st["panic_outcomes"] += 1
+            if '"fault":true' in line: st["faults_injected"] += 1
+            if op == "destroy":
+                if '"out":["n"]' in line: st["destroy_miss"] += 1
+                elif '"out":["vals"' in line or '"out":["unit"]' in line: st["destroy_hit"] += 1
+            elif op == "create_within" and '"out":["err"' in line: st["within_err"] += 1
+            elif op == "clone" and '"out":["ok"]' in line: st["clones_ok"] += 1
+            elif op == "find":
+                if '"out":["some"]' in line: st["finds_some"] += 1
+                elif '"out":["n"]' in line: st["finds_none"] += 1
+            elif op == "loop":
+                decs = re.findall(r'"dec":"(\w+)"', line.split('"obs"')[0])
+                if any(d in ("b", "bd") for d in decs): st["loops_with_break"] += 1
+                seen_d = False
+                for d in decs:
+                    if d in ("cd", "bd"): seen_d = True
+                    elif seen_d and d == "c":
+                        st["loops_destroy_then_keep"] += 1
+                        break
+            st["worlds_max"] = max(st["worlds_max"], line.count('{"w":'))
+    return st
 
 def _count_ops(trace):
     ops = {}
@@ -98,7 +145,7 @@ def drive(tier, seed, features=(), release=False, extra_args=(), label="drive", 
         m = re.search(r"events=(\d+) probes=(\d+)", out)
         viol, st = validate_trace(trace)
         n, ops = _count_ops(trace)
-        res = {"seed": cseed, "events": n, "probes": int(m.group(2)) if m else 0, "ops": ops, "tlc": st,
+        res = {"seed": cseed, "events": n, "probes": int(m.group(2)) if m else 0, "ops": ops, "tlc": st, "outcomes": _outcome_stats(trace),
                "violations": _collect(trace, viol, {"engine": label, "seed": cseed, "runs": runs, "steps": steps,
                                                    "features": list(feats), "release": release, "args": list(extra_args)}),
                "samples": _sample_events(trace, 2) if i == 0 else []}
@@ -114,6 +161,9 @@ def drive(tier, seed, features=(), release=False, extra_args=(), label="drive", 
     res = {"engine": label, "cfg": cfg_name(feats, release), "tier": tier, "seed": seed,
            "traces": chunks, "runs": chunks * runs, "events": sum(p["events"] for p in parts),
            "probes": sum(p["probes"] for p in parts), "ops": ops,
+           "probe_classes": {k: sum(p["tlc"].get("probe_classes", {}).get(k, 0) for p in parts) for k in
+                             ("entity_live", "entity_stale", "entity_forged", "direct_current", "direct_dead", "direct_foreign")},
+           "outcomes": {k: (max if k == "worlds_max" else sum)(p["outcomes"][k] for p in parts) for k in parts[0]["outcomes"]},
            "tlc_states": sum(p["tlc"].get("distinct", 0) for p in parts),
            "tlc_transitions": sum(p["tlc"].get("generated", 0) for p in parts),
            "violations": [v for p in parts for v in p["violations"]],
